@@ -6,7 +6,8 @@ VOCAB = ["a", "b", "c", "aa", "ab", "ba", "bb", "ca", "abc", "acb", "bac", "abb"
          "éa", "aé", "\U0001f600b"]
 COMMON = ["a", "b", "ab", "abc", "ba"]
 word_s = st.one_of(st.sampled_from(COMMON), st.sampled_from(VOCAB), st.sampled_from(VOCAB[:12]))
-kw_s = st.sampled_from(["x", "y", "z", "xy", "yx", "xyz"])
+# (two of the keywords are also words of the text field: the same term text in two fields with different statistics)
+kw_s = st.sampled_from(["x", "y", "z", "xy", "yx", "xyz", "a", "ab"])
 
 
 def doc_s(key_s, maxlen=8, boosts=False):
